@@ -174,7 +174,10 @@ func (s *backendStorageCommon) getBackendLocked(u *url.URL) *Backend {
 		if entry.url == "" {
 			// Old-style configuration, only hosts are configured.
 			return entry
-		} else if strings.HasPrefix(url, entry.url) {
+		} else if strings.HasPrefix(url, entry.url) &&
+			(entry.url[len(entry.url)-1] == '/' || url[len(entry.url)] == '/') {
+			// Only match at a path boundary: backends from etcd may be configured
+			// without trailing slash, "/nextcloud" must not match "/nextcloud-test/".
 			return entry
 		}
 	}
